@@ -195,6 +195,7 @@ pub(crate) mod verif_cb {
             assert!(c == 0 && o == 0 && h == 0);
         }
         std::mem::forget(b);
+        std::mem::forget(ctx);
         kani::cover!(r);
         kani::cover!(!r);
     });
@@ -249,6 +250,7 @@ pub(crate) mod verif_cb {
         }
         assert!(b.base.next_retry_timestamp_ms.load(SeqCst) == nr0);
         std::mem::forget(b);
+        std::mem::forget(ctx);
         kani::cover!(s0 == State::Open && now == nr0 && r);
         kani::cover!(s0 == State::Open && !r);
     });
